@@ -108,7 +108,7 @@ def run(ctx):
     quick = ctx.tier == "quick"
     rng = ctx.sub_rng("ts")
     ts = []
-    step = 3 if quick else 1
+    step = 1
     start = rng.randrange(step)
     for d in range(start, LAST_DAY + 1, step):
         ts.append(d * DAY)
@@ -140,7 +140,7 @@ def run(ctx):
     ctx.count("distinct_days", len(set(t // DAY for t in ts)))
     # CLI
     cases = []
-    ncal = 2500 if quick else 40000
+    ncal = 5000 if quick else 50000
     for i in range(ncal):
         t = rng.choice(ts) if rng.random() < 0.7 else rng.randrange(0, (LAST_DAY + 1) * DAY)
         cases.append(("calver", rng.choice(CALVER), t, rng.choice(["semver", "pep440"]), rng.choice(["bumped", "bumped", "last", "both"])))
@@ -165,8 +165,8 @@ def run(ctx):
     ctx.rule = ("%s day from 1970-01-01 to 2199-12-31 at its first and last second, all year boundaries, Feb 28/29, Mar 1, plus random instants "
                 "(%d distinct instants) x 16 patterns at the probe, shards running under TZ in %r; %d CLI runs of the 11 calver presets (semver and pep440, "
                 "time given as bumped or only as last timestamp) and %d runs of ts(\"P\") schema components for each of the 16 names. "
-                "non-trivial = distinct instants" % ("every 3rd" if quick else "every", len(ts), TZS, ncal, len(cases) - ncal))
-    ctx.exhaustive = not quick
+                "non-trivial = distinct instants" % ("every", len(ts), TZS, ncal, len(cases) - ncal))
+    ctx.exhaustive = True
     ctx.assumptions = ["oracle: Hinnant civil-from-days, %W = Monday-based week number with days before the first Monday in week 0",
                        "CLI values compared as integers (version rendering strips leading zeros by design)"]
 
